@@ -616,7 +616,9 @@ impl DrawState {
             // no bar line was drawn below the text lines: there is no padding on the screen
             shift = VisualLines::default();
         }
-        if shift != VisualLines::default() || !self.lines.is_empty() {
+        // After a draw without lines the cursor is at the start of the line below the erased (or,
+        // with bottom alignment, padded) region
+        if !self.lines.is_empty() {
             self.cursor_below = false;
         } else if *bar_count != VisualLines::default() {
             self.cursor_below = true;
